@@ -86,6 +86,14 @@ class _Node(nn.Module):
     """A second entry point (apply(..., method=...))."""
     return self(x) * k
 
+  def then_put(self, x):
+    """Entry point that touches a new collection only after __call__ has
+    returned."""
+    y = self(x)
+    if self.is_mutable_collection('late'):
+      self.put_variable('late', 'v', jnp.sum(y))
+    return y
+
   def all_shared(self):
     return tuple(self.shared) + ((self.peer,) if self.peer is not None else ())
 
